@@ -274,7 +274,11 @@ func (t *Transaction) checkIndexes() error {
 	tables := t.Cache.Tables()
 	for _, table := range tables {
 		tc := t.Cache.Table(table)
-		for _, row := range tc.RowsShallow() {
+		rows := tc.RowsShallow()
+		if err := t.checkIndexesAmong(table, rows); err != nil {
+			return err
+		}
+		for _, row := range rows {
 			err := tc.IndexExists(row)
 			if err != nil {
 				return err
@@ -300,6 +304,28 @@ func (t *Transaction) checkIndexes() error {
 				}
 				return err
 			}
+		}
+	}
+	return nil
+}
+
+// checkIndexesAmong checks that no two of the provided rows hold the same
+// values for a schema index. The indexes of the transaction cache are written
+// without checks and only remember the last row that took a value; once that
+// row moves on or is deleted the remaining holders are no longer reachable
+// through them, so the rows are indexed afresh here.
+func (t *Transaction) checkIndexesAmong(table string, rows map[string]model.Model) error {
+	if len(rows) < 2 {
+		return nil
+	}
+	fresh, err := cache.NewTableCache(t.Model, nil, t.logger)
+	if err != nil {
+		return err
+	}
+	rc := fresh.Table(table)
+	for uuid, row := range rows {
+		if err := rc.Create(uuid, row, true); err != nil {
+			return err
 		}
 	}
 	return nil
